@@ -96,7 +96,8 @@ TraceNext ==
 Drifted ==
   IF ln >= Index[tr].first /\ ~stuck /\ Lines[ln].ev = "Access" /\ Lines[ln].status = "ok"
   THEN LET L == Lines[ln]
-           pred == S(L.before) \cup Need(L.a)
+           \* an attribute the store already holds (e.g. supplied by the source) derives nothing
+           pred == IF L.a \in S(L.before) THEN S(L.before) ELSE S(L.before) \cup Need(L.a)
        IN IF S(L.store) = pred THEN {} ELSE { <<L.a, S(L.store) \ pred, pred \ S(L.store)>> }
   ELSE {}
 
